@@ -242,7 +242,11 @@ def fn_shape(text: str, sig_brace: int):
             st, sn = ['?'], ['']
         hdr = m[lp['kw_pos'] + sig_brace:ob]
         loops.append(dict(kw=lp['kw'], hdr=_stmt_token(hdr), stmts=st, var=bound(hdr), names=sn))
-    return dict(tops=tops, loops=loops, closures=len(find_closures(m[sig_brace:])), top_names=[bound(m[a:b]) for a, b in tspans])
+    body = m[sig_brace:]
+    all_names = [mm.group(1) or mm.group(2) or mm.group(3) for mm in re.finditer(
+        r"\blet\s+(?:mut\s+)?([a-z_][a-z0-9_]*)\s*(?::|=[^=])|\bfor\s+&?(?:mut\s+)?([a-z_][a-z0-9_]*)\s+in\b|[(,=]\s*(?:move\s+)?\|(?:mut\s+)?([a-z_][a-z0-9_]*)\s*(?::[^|]*)?\|", body)]
+    return dict(tops=tops, loops=loops, closures=len(find_closures(m[sig_brace:])), top_names=[bound(m[a:b]) for a, b in tspans],
+                all_names=all_names)
 
 
 def _structure(sh):
@@ -383,8 +387,20 @@ def weave_fn(fs: FnSpec, text: str, sig_brace: int, shim_table, variant=0, basel
             for a_, b_ in sm.items():
                 if a_ < len(bl.get('names', [])) and b_ < len(cl.get('names', [])):
                     pair(bl['names'][a_], cl['names'][b_], bl['stmts'][a_], cl['stmts'][b_])
+        # every binder of the body in textual order (also those nested in branches and closures): with equally many binders
+        # on both sides a differing position is a renamed local
+        ba, ca = baseline.get('all_names'), cur_shape.get('all_names')
+        if ba is not None and ca is not None and len(ba) == len(ca):
+            for o_, n__ in zip(ba, ca):
+                # a renaming makes the old name disappear and brings in a name that was not there; a moved binder does neither
+                if o_ != n__ and o_ not in ca and n__ not in ba:
+                    renames.setdefault(o_, set()).add(n__)
         # only unambiguous renamings, and never onto a name the contract text already uses for something else
-        renames = {o: list(ns)[0] for o, ns in renames.items() if len(ns) == 1}
+        renames = {o: list(ns)[0] for o, ns in renames.items() if len(ns) == 1
+                   and o not in ('char', 'str', 'bool', 'u8', 'u16', 'u32', 'u64', 'usize', 'i32', 'i64', 'int', 'nat', 'self', 'old', 'final')}
+        # a local that shadows a parameter of the same name (`let count = count.map(..)`): the contract's `count` may be either
+        params_ = set(re.findall(r'([a-z_][a-z0-9_]*)\s*:', m[:sig_brace]))
+        renames = {o: n_ for o, n_ in renames.items() if o not in params_}
         spec_text = '\n'.join(t or '' for (_k, _a, _o, t) in fs.sections)
         renames = {o: n_ for o, n_ in renames.items() if not re.search(r'\b%s\b' % re.escape(n_), spec_text)}
     if renames:
@@ -543,10 +559,18 @@ def weave_fn(fs: FnSpec, text: str, sig_brace: int, shim_table, variant=0, basel
         if renames:
             # a shim pattern that names a code local follows the renaming of that local (names of 3+ characters only, so that
             # regex escapes such as \w are never touched)
-            long_ = {o: n_ for o, n_ in renames.items() if len(o) >= 3}
-            if long_:
-                rx2 = re.compile(r'(?<![.\w\\])(%s)\b' % '|'.join(re.escape(o) for o in long_))
-                sh = dict(sh, pattern=rx2.sub(lambda mm: long_[mm.group(1)], sh['pattern']), replace=rx2.sub(lambda mm: long_[mm.group(1)], sh['replace']))
+            def ren_rx(t):
+                # rename identifiers in a regex / template: escapes (\b, \w, \1, \. ...) are set aside first so that the
+                # letter of an escape is neither renamed nor taken for the start of an identifier
+                esc = []
+
+                def keep(mm):
+                    esc.append(mm.group(0))
+                    return '\x00%d\x00' % (len(esc) - 1)
+                t2 = re.sub(r'\\.', keep, t)
+                t2 = re.sub(r'(?<![.\w])(%s)(?!\w)' % '|'.join(re.escape(o) for o in renames), lambda mm: renames[mm.group(1)], t2)
+                return re.sub(r'\x00(\d+)\x00', lambda mm: esc[int(mm.group(1))], t2)
+            sh = dict(sh, pattern=ren_rx(sh['pattern']), replace=ren_rx(sh['replace']))
         hits = list(re.finditer(sh['pattern'], m[sig_brace:], re.S))
         # a shim is a rewrite rule: where its pattern does not occur there is nothing to rewrite (if the code now uses a
         # construct Verus cannot read, Verus says so and the function is reported UNDECIDED)
@@ -751,6 +775,11 @@ def build_unit(spec_path, repo, contracts_dir, shim_table, force_extern=None, va
                                 shims=fs.shims, degraded=degraded, src_name=fs.src_name, implname=fs.impl,
                                 imported=fs.opts.get('imported'),
                                 local=[q for q in fs.opts.get('local', '').split(',') if q], shape=shape, shape_changed=shape_changed,
+                                # registered call-outs that matched on the tree the contract was written for and match less often now:
+                                # the code they stood for is then read natively, usually with a weaker specification
+                                shim_counts={n_: len(re.findall(r'/\*@S<%s:' % re.escape(n_), woven or '')) for n_ in fs.shims},
+                                shim_lost=sorted(n_ for n_ in fs.shims if isinstance(want, dict) and
+                                                 len(re.findall(r'/\*@S<%s:' % re.escape(n_), woven or '')) < want.get('shims', {}).get(n_, 0)),
                                 # every property named in a label tag of this function's contract (a degraded function
                                 # has no woven invariants, but its tagged obligations are still undecided, not absent)
                                 label_props=sorted(set(q for (_k, _a, _o, t) in fs.sections
